@@ -37,6 +37,11 @@ def t_select(chk, ix):
     # 'a scenario without steps' is decided by testing sequences, never iterator objects (always true)
     from .. import rules_generic
     rules_generic.check_iterator_truth(chk, ix)
+    # a deselected scenario is reported skipped WITH its steps: background steps are the scenario's own copies
+    from .. import rules_order
+    rules_order.check_step_order(chk, ix)
+    # wildcard patterns in a tag expression ([seq] included) select what fnmatch says (shared with C07)
+    rules_tags.check_matcher(chk, ix)
 
 
 def t_rollup(chk, ix):
